@@ -96,11 +96,10 @@ theorem fixedHostText_eq (u : Url) (hw : WfUrl u) :
     obtain ⟨ha, hz, d', rfl, hd'⟩ := hw
     have hurl : (u.render).contains '%' = true := by
       simp [Url.render, Host.render, hh]
-    have hlow : lowerStr (a ++ '%' :: d' ++ z) = lowerStr a ++ '%' :: (lowerStr d' ++ lowerStr z) := by
-      simp [lowerStr, lowerChar_percent_self]
-    have hy : '%' ∉ lowerStr d' ++ lowerStr z := by
+    have hlow : lowerStr a ++ '%' :: d' ++ z = lowerStr a ++ '%' :: (d' ++ z) := by simp
+    have hy : '%' ∉ d' ++ z := by
       simp only [List.mem_append, not_or]
-      exact ⟨percent_not_mem_lowerStr d' hd', percent_not_mem_lowerStr z hz⟩
+      exact ⟨hd', hz⟩
     simp only [hurl, Bool.not_true, Bool.false_eq_true, if_false, hlow]
     rw [cutLastPercent_spec _ _ hy]
     simp
